@@ -12,5 +12,9 @@ def run(ctx):
     sorter(ctx, want_order=True, want_topn=True)     # a sorter in front of the collector forwards complete() after flushing      # the group is emitted behind --skip/--take only if the limiter forwards complete()
     from ..scen_readinput import read_input
     read_input(ctx, ['read.ignore_silent', 'read.recoverable_continues', 'read.one_context_per_value'])     # a malformed (e.g. truncated) value does not end the run: the collection is still emitted
+    from ..scen_stages import STAGES, summaries
+    from ..scen_limiter import lifecycle
+    for name, (prefix, sname) in STAGES.items():
+        lifecycle(ctx, name, prefix, extra_summaries=summaries(1))      # end of input reaches the collector through every stage in front of it
     from ..conform import conformance
     conformance(ctx, ['pipeline'])      # the references the obligations are stated against, compared with jawk::go on concrete runs (validates the oracles; never decides)
